@@ -223,6 +223,23 @@ theorem upfront_amount (c : MethodCost) (stationary : Bool) (crews : Nat) (budge
   unfold methodDay upfrontCost crewCount
   cases stationary <;> simp
 
+/-- **frame over earlier constructions**: however many methods were built before from the same
+parameter dict, a method's upfront cost is a function of the cost parameters, its deployment type and
+its crew count alone, and the dict is handed on unchanged -/
+theorem upfront_frame (bs : List (Bool × Nat)) (c : MethodCost) :
+    (constructAll bs c).2 = c ∧
+    (constructAll bs c).1 = bs.map (fun b => c.upfront * (if b.1 then 1 else (b.2 : Int))) := by
+  induction bs with
+  | nil => exact ⟨rfl, rfl⟩
+  | cons b bs ih =>
+    obtain ⟨st, n⟩ := b
+    simp only [constructAll, construct, List.map_cons]
+    refine ⟨ih.1, ?_⟩
+    rw [ih.2]
+    congr 1
+    unfold upfrontCost crewCount
+    cases st <;> simp
+
 /-! ### (5) repair cost -/
 
 private theorem repaired_stays (p : Emission.Params) (ev : Nat → List Emission.TagEv) (n : Nat)
